@@ -22,7 +22,17 @@ def run_property(prop: str, tier: str, repo: str, overlay=None, write=True, quie
     prog = Program(repo, overlay=overlay)
     prog.build_callgraph()
     ctx = Context(prog, prop, tier)
-    mod.run(ctx)
+    try:
+        mod.run(ctx)
+    except AnalysisError as exc:
+        # an anchor or instance floor that vanished *because of* a construct a rule has already reported: the finding
+        # stands (exit 1); without any new finding the run is analysis-broken (exit 2, fail closed)
+        from .report import load_known, match_known
+
+        known = load_known()
+        if not any(match_known(f, known) is None for f in ctx.findings):
+            raise
+        ctx.note(f"analysis stopped early after the reported violation(s): {exc}")
     if quiet:
         return ctx
     bcode = 0
